@@ -662,6 +662,19 @@ class Typer:
                         if q is None and name.split(".")[-1] == "replace" and v.args and isinstance(v.args[0], ast.Name) \
                                 and fi.params() and v.args[0].id == fi.params()[0] and fi.cls is not None:
                             q = fi.cls.qual
+                        if q is None and name.split(".")[-1] == "replace" and v.args and isinstance(v.args[0], ast.Attribute) \
+                                and isinstance(v.args[0].value, ast.Name) and fi.params() and v.args[0].value.id == fi.params()[0] \
+                                and fi.cls is not None and fi.qual not in self._ret_active:
+                            # return dataclasses.replace(self.<property>, ..): the type of that property
+                            m_ = self.prog.lookup_method(fi.cls.qual, v.args[0].attr)
+                            if m_ is not None and m_.kind == "property":
+                                self._ret_active.add(fi.qual)
+                                try:
+                                    rt_ = self.return_type(m_)
+                                finally:
+                                    self._ret_active.discard(fi.qual)
+                                if rt_ and rt_[0] == "cls":
+                                    q = rt_[1]
                         if q is None and fi.cls is not None and isinstance(v.func, ast.Attribute) and isinstance(v.func.value, ast.Name) \
                                 and fi.params() and v.func.value.id == fi.params()[0] and fi.qual not in self._ret_active:
                             # return self._helper(...): what that method of the same class returns
